@@ -728,8 +728,8 @@ func (b *dsBuilder) line() string {
 	return strings.Join(strings.Fields(s+" -- "+strings.Join(b.ops, " ")), " ")
 }
 
-var dsQtypesKnown = []int{10, 65000, 16, 33, 15, 5, 28, 1}
-var dsQtypesBig = []int{10, 65000, 16}
+var dsQtypesKnown = []int{int(util.QueryTypeNull), int(util.QueryTypePrivate), 16, 33, 15, 5, 28, 1}
+var dsQtypesBig = []int{int(util.QueryTypeNull), int(util.QueryTypePrivate), 16}
 
 func (b *dsBuilder) qtype(payload int, down byte) int {
 	exotic := down == 'W' || down == 'X' || down == 'Y'
